@@ -84,6 +84,32 @@ func (g *c08gen) failStmt() (string, string) {
 	t := []string{"t0", "t1"}[g.r.Intn(2)]
 	k := 1 + g.r.Intn(g.rows) // the row at which evaluation fails
 	g.nfail++
+	hasTv := false
+	for _, n := range g.tables {
+		if n == "tv" {
+			hasTv = true
+		}
+	}
+	if hasTv && g.r.Bool(0.3) {
+		// the temporary table (id, n) with rows 1..3 (+ what was inserted since)
+		kt := 2 + g.r.Intn(2)
+		switch g.r.Intn(7) {
+		case 0:
+			return fmt.Sprintf("UPDATE tv SET n = 1000 / (id - %d);", kt), ""
+		case 1:
+			return fmt.Sprintf("UPDATE tv SET n = n + 1 WHERE 10 / (id - %d) > -100;", kt), ""
+		case 2:
+			return "INSERT INTO tv VALUES (71, 1), (72, 2), (73);", ""
+		case 3:
+			return fmt.Sprintf("DELETE FROM tv WHERE 10 / (id - %d) > -100;", kt), ""
+		case 4:
+			return "REPLACE INTO tv (id, n) USING (id) VALUES (1, 111), (2);", ""
+		case 5:
+			return fmt.Sprintf("REPLACE INTO tv (id, n) USING (id) SELECT id, 10 / (id - %d) FROM tv;", kt), ""
+		default:
+			return fmt.Sprintf("UPDATE tv SET n = 5, id = 10 / (id - %d);", kt), ""
+		}
+	}
 	switch g.r.Intn(16) {
 	case 0:
 		rows := []string{"(401, 1, 'a')", "(402, 2, 'b')", "(403, 3, 'c')"}
@@ -119,7 +145,7 @@ func (g *c08gen) failStmt() (string, string) {
 	case 14:
 		return "UPDATE t0, t1 SET n = 1 FROM t0 JOIN t1 ON t0.id = t1.id;", ""
 	default:
-		return fmt.Sprintf("INSERT INTO %s (id, n, s) VALUES (601, 1, 'a'), (602, 10 / (%d - %d), 'b');", t, k, k), ""
+		return fmt.Sprintf("UPDATE %s SET s = 'first-item-done', n = 10 / (id - %d);", t, k), ""
 	}
 }
 
